@@ -13,6 +13,7 @@ import Driver.Ops.Walk
 import Driver.Ops.LocateTri
 import Driver.Ops.Quadrature
 import Driver.Ops.AlgebraicAssembly
+import Driver.Ops.QuadratureAdaptive
 
 /-!
 # Driver/Main — the model behind a one-line-in, one-line-out protocol (K := Rat)
@@ -26,7 +27,7 @@ open Driver
 /-- the op modules, tried in order -/
 def handlers : List (String → List V → Option String) :=
   [Driver.Ops.Curve.handle, Driver.Ops.Area.handle, Driver.Ops.Locate.handle,
-   Driver.Ops.Protocol.handle, Driver.Ops.Algebraic.handle, Driver.Ops.Triangle.handle, Driver.Ops.Valid.handle, Driver.Ops.Classify.handle, Driver.Ops.Helpers.handle, Driver.Ops.Geometric.handle, Driver.Ops.Walk.handle, Driver.Ops.LocateTri.handle, Driver.Ops.Quadrature.handle, Driver.Ops.AlgebraicAssembly.handle]
+   Driver.Ops.Protocol.handle, Driver.Ops.Algebraic.handle, Driver.Ops.Triangle.handle, Driver.Ops.Valid.handle, Driver.Ops.Classify.handle, Driver.Ops.Helpers.handle, Driver.Ops.Geometric.handle, Driver.Ops.Walk.handle, Driver.Ops.LocateTri.handle, Driver.Ops.Quadrature.handle, Driver.Ops.AlgebraicAssembly.handle, Driver.Ops.QuadratureAdaptive.handle]
 
 def handle (op : String) (args : List V) : Option String :=
   handlers.firstM (fun h => h op args)
